@@ -104,7 +104,23 @@ func (g *gen) aclCase(thorough bool) Case {
 	if r.Chance(1, 200) {
 		c.Req = nil
 	}
-	c.Ops = append(c.Ops, Step{K: "sub"})
+	burst := func() {
+		k := 2 + r.Intn(6)
+		for i := 0; i < k; i++ {
+			b := 1
+			if i == k-1 {
+				b = 2
+			}
+			c.Ops = append(c.Ops, g.burstWrite(targets, b))
+		}
+	}
+	if r.Chance(1, 8) {
+		// the initial walk is overlapped by concurrent writers
+		c.Ops = append(c.Ops, Step{K: "sub", Burst: 1})
+		burst()
+	} else {
+		c.Ops = append(c.Ops, Step{K: "sub"})
+	}
 	switch mode {
 	case 0:
 		ne := 2 + r.Intn(9)
@@ -112,7 +128,11 @@ func (g *gen) aclCase(thorough bool) Case {
 			ne += r.Intn(8)
 		}
 		for i := 0; i < ne; i++ {
-			c.Ops = append(c.Ops, g.cacheStep(targets, pathOrigins, true))
+			if r.Chance(1, 5) {
+				burst() // concurrent update streams across allowed and denied targets
+			} else {
+				c.Ops = append(c.Ops, g.cacheStep(targets, pathOrigins, true))
+			}
 		}
 	case 2:
 		np := r.Pick(2, 4, 3, 2)
@@ -204,7 +224,7 @@ func nontrivial(c *Case) bool {
 func main() {
 	o := vh.ParseFlags()
 	quietLogs()
-	meta := vh.NewMeta("corpus cases; table: a fixed three-target script (snapshot, then update, subtree delete and whole-target removal per target) under all 8 allow/deny row sets x modes {STREAM,ONCE,POLL} x updates_only x target {*,t1,t2}; random: ACL table over 2 users x 3 targets (allow / deny / missing row), user u1/u2/unknown/absent, ACL installed or not, 2-9 initial notifications, one request (STREAM 58% / ONCE / POLL / unknown mode; target * or single, 1-3 subscription paths), STREAM: 2-10 (thorough 2-17) streamed cache operations (single/multi update, atomic, subtree delete, target removal) across allowed and denied targets, POLL: 0-3 triggers with edits. Every case is run with the ACL and without. distinct = distinct inputs; non-trivial = ACL installed, the un-ACL'd run delivered at least one update and the run with the ACL strictly fewer (filtered or rejected)")
+	meta := vh.NewMeta("corpus cases; table: a fixed three-target script (snapshot, then update, subtree delete and whole-target removal per target) under all 8 allow/deny row sets x modes {STREAM,ONCE,POLL} x updates_only x target {*,t1,t2}; random: ACL table over 2 users x 3 targets (allow / deny / missing row), user u1/u2/unknown/absent, ACL installed or not, 2-9 initial notifications, one request (STREAM 58% / ONCE / POLL / unknown mode; target * or single, 1-3 subscription paths), STREAM: 2-10 (thorough 2-17) streamed cache operations (single/multi update, atomic, subtree delete, target removal) across allowed and denied targets, 1/5 of them bursts of 2-7 concurrent writes (one writer goroutine per target, no quiescence in between), in 1/8 of the cases the initial walk itself is overlapped by such a burst; POLL: 0-3 triggers with edits. Every case is run with the ACL and without. distinct = distinct inputs; non-trivial = ACL installed, the un-ACL'd run delivered at least one update and the run with the ACL strictly fewer (filtered or rejected)")
 	e := &emitter{dir: o.Out, cf: newCaseFile(), meta: meta, limit: 250, require: "Subscribe.C07Check", twice: true, nontriv: nontrivial}
 
 	if o.Replay != "" {
